@@ -391,13 +391,14 @@ fn sweep_new<F: PrimeField + FftField, M: Mdl<F>, D: EvaluationDomain<F> + Send 
             ns.extend([e - 1, *e, e + 1]);
         }
     }
-    ns.extend([2 * maxs, 2 * maxs + 1, 1 << 40, (1 << 40) + 1, 1 << 62, 1 << 63]);
+    ns.extend([2 * maxs, 2 * maxs + 1, 1 << 40, (1 << 40) + 1, 1 << 62, 1 << 63, (1 << 63) + 1, 3 << 62, u64::MAX]);
     let ns = dedup_sorted(ns);
     ctx.sweep(&format!("new/{}/{}", fi.name, kind.name()), ns.len() as u64, |i, loc| {
         let n = ns[i as usize];
         let want = fi.oracle(kind, n);
         loc.class_if(want.is_none(), "new:none_expected");
         loc.class_if(n == 0, "new:n=0");
+        loc.class_if(n > 1 << 63, "new:n>2^63");
         loc.class_if(want == Some(n), "new:n_is_a_size");
         loc.class_if(n > 1 && fi.oracle(kind, n - 1) == Some(n - 1), "new:n=size+1");
         if loc.sampling() {
@@ -1340,6 +1341,7 @@ fn main() {
         "lagrange:tau_in_domain",
         "lagrange:tau_in_coset",
         "new:none_expected",
+        "new:n>2^63",
         "new:n=size+1",
         "fft:degree_aware_len_not_pow2",
         "size>MIN_INPUT_SIZE_FOR_PARALLELIZATION",
